@@ -20,7 +20,7 @@ cv == <<base, wents, durn, ver>>
 vars == <<l, cur, hs, base, wents, durn, ver>>
 
 Chk(c) == c \in Checked
-TrackCrash == Checked \cap {"crash10", "crash11", "crash12", "crash13", "crash22", "crash43", "ckpt"} # {}
+TrackCrash == Checked \cap {"crash10", "crash11", "crash12", "crash13", "crash22", "crash43", "crash40", "ckpt"} # {}
 Ev == Trace[l]
 Is(o) == l <= Len(Trace) /\ Trace[l].op = o /\ l' = l + 1
 Has(h) == h \in DOMAIN hs
@@ -134,6 +134,9 @@ CrashOK(ev) ==
   /\ Chk("crash12") => PrefixFrom(st, es, 0)      \* only Flush/Close count as acknowledgements (they reset base)
   /\ Chk("crash10") => SuperOfAcked(st, es)
   /\ (Chk("crash13") /\ ev.dur) => (ev.ok /\ PrefixFrom(st, es, durn))
+  (* C40: a crash during RatchetFormatMajorVersion recovers a version between the last one whose ratchet *)
+  (* returned and the one in flight, with the same contents                                              *)
+  /\ Chk("crash40") => (ev.ok /\ ev.fmv >= ev.fmvlo /\ ev.fmv <= ev.fmvhi /\ PrefixFrom(st, es, MaxAcked(es)))
 (* C22: with the WAL disabled recovery builds no tables, so the recovered file set is a MANIFEST version: *)
 (* the last installed one the driver saw, or the next one (its edit was in flight)                        *)
 (* vallowed: the table sets of the last two versions described by the MANIFEST of the uncrashed store at   *)
@@ -155,7 +158,9 @@ DurRead == Is("durread")
            /\ durn' = (IF DurPrefixes(StOf(Ev.state)) # {} THEN Min(DurPrefixes(StOf(Ev.state))) ELSE 0)
            /\ UNCHANGED <<cur, hs, base, wents, ver>>
 (* a clean close + reopen must preserve the state exactly (C47) *)
+Ratchet == Is("ratchet") /\ (Chk("crash40") => (Ev.ok /\ Ev.got = Ev.to /\ Ev.lowerrefused)) /\ UNCHANGED <<cur, hs, cv>>
 CleanReopen == Is("cleanreopen") /\ (Chk("reopen") => (Ev.ok /\ StOf(Ev.state) = cur))
+               /\ (Chk("crash40") => (Ev.ok /\ StOf(Ev.state) = cur /\ Ev.fmv >= Ev.fmvlo))
                /\ base' = cur /\ wents' = <<>> /\ hs' = <<>> /\ durn' = 0 /\ UNCHANGED <<cur, ver>>
 (* Close of the DB after every handle was closed must succeed and leak nothing (C47) *)
 CloseDB == Is("closedb") /\ (Chk("close") => (Ev.ok /\ Ev.goroutines = 0 /\ Ev.openfiles = 0)) /\ UNCHANGED <<cur, hs, cv>>
@@ -185,7 +190,7 @@ Note == Is("note") /\ UNCHANGED <<cur, hs, cv>>
 TraceNext == \/ Reset \/ Commit \/ Ingest \/ IngestExcise \/ Excise \/ BatchCommit \/ DurablePoint \/ SyncWait \/ Maint
              \/ Snap \/ Efos \/ BatchNew \/ BatchOp \/ Close \/ Get \/ Scan
              \/ NewIter \/ IterOp \/ SetBounds \/ SetOpts \/ CloneIt
-             \/ CrashProbe \/ Reopen \/ Version \/ DurRead \/ CleanReopen \/ CloseDB \/ Checkpoint \/ ScanInt \/ Note
+             \/ CrashProbe \/ Reopen \/ Version \/ DurRead \/ CleanReopen \/ CloseDB \/ Checkpoint \/ ScanInt \/ Ratchet \/ Note
 TraceSpec == TraceInit /\ [][TraceNext]_vars
 
 (* acceptance: high-water mark of consumed lines *)
